@@ -37,9 +37,14 @@ pub enum TxEdit {
     StakeTypeNoInput,
     /// BlockStake-typed transaction that spends the victim's output to the attacker, signed by the attacker (C01 only)
     StakeTypeForeignInput,
+    /// ATR-typed transaction (rebroadcasts are waived the signature / ownership / utxo checks) that
+    /// spends the victim's output into a Normal output of the attacker - no ATR slip at all (C01 only)
+    AtrTypeForeignInput,
+    /// ATR-typed transaction without input and with a Normal output (C01 only)
+    AtrTypeMintNormalOutput,
 }
 /// edits that are judged by C01 only (kept out of TX_EDITS so that recorded edit indices stay stable)
-pub const TX_EDITS_EXTRA: [TxEdit; 3] = [TxEdit::OffChainInput, TxEdit::StakeTypeNoInput, TxEdit::StakeTypeForeignInput];
+pub const TX_EDITS_EXTRA: [TxEdit; 5] = [TxEdit::OffChainInput, TxEdit::StakeTypeNoInput, TxEdit::StakeTypeForeignInput, TxEdit::AtrTypeForeignInput, TxEdit::AtrTypeMintNormalOutput];
 pub const TX_EDITS: [TxEdit; 19] = [
     TxEdit::ForgedSig,
     TxEdit::NoSig,
@@ -177,6 +182,26 @@ pub fn edited_tx(e: TxEdit, c: &EditCtx) -> Option<Transaction> {
             let v = v0?;
             let mut t = tx_from_inputs(vec![v.clone()], vec![out(att.0, v.amount)], &att, c.ts, vec![]);
             t.transaction_type = TransactionType::BlockStake;
+            t.sign(&att.1);
+            t.generate(&att.0, 0, 0);
+            Some(t)
+        }
+        TxEdit::AtrTypeForeignInput => {
+            let v = v0?;
+            let mut t = tx_from_inputs(vec![v.clone()], vec![out(att.0, v.amount)], &att, c.ts, vec![]);
+            t.transaction_type = TransactionType::ATR;
+            t.sign(&att.1);
+            t.generate(&att.0, 0, 0);
+            Some(t)
+        }
+        TxEdit::AtrTypeMintNormalOutput => {
+            let mut t = Transaction::default();
+            t.timestamp = c.ts;
+            t.transaction_type = TransactionType::ATR;
+            let mut o = Slip::default();
+            o.public_key = att.0;
+            o.amount = 321_000;
+            t.add_to_slip(o);
             t.sign(&att.1);
             t.generate(&att.0, 0, 0);
             Some(t)
